@@ -41,7 +41,7 @@ var fntLitTargets = []fntLitTarget{
 	{"utf8.Codes", "font/encoding/cidenc/utf8.go", "compositeUTF8.Codes"},
 	{"fixed.Codes", "font/encoding/cidenc/fixed.go", "fixed.Codes"},
 	{"extract.decodeCompositeWidths", "graphics/extract/font-metrics.go", "decodeCompositeWidths"},
-	{"extract.getSimpleWidths", "graphics/extract/font-metrics.go", "getSimpleWidths"},
+	{"extract.getSimpleWidths", "graphics/extract/font-metrics.go", "getSimpleWidthsErr"}, // D88: the body moved here; getSimpleWidths is a bool-only wrapper
 	{"dict.setSimpleWidths", "font/dict/metrics.go", "setSimpleWidths"},
 	{"dict.encodeCompositeWidths", "font/dict/metrics.go", "encodeCompositeWidths"},
 }
